@@ -9,7 +9,7 @@ import time
 
 VERIF = os.path.dirname(os.path.dirname(os.path.abspath(__file__)))
 TARGET = os.path.join(VERIF, 'build', 'finder-target')
-SUPPORTED = {'C15', 'C06', 'C11', 'C04', 'C05', 'C16', 'C01', 'C08', 'C03', 'C13', 'C02', 'C09', 'C12', 'C19', 'C14', 'C20', 'C10'}
+SUPPORTED = {'C15', 'C06', 'C11', 'C04', 'C05', 'C16', 'C01', 'C08', 'C03', 'C13', 'C02', 'C09', 'C12', 'C19', 'C14', 'C20', 'C10', 'C07'}
 
 
 def _env():
@@ -81,6 +81,9 @@ def _run(binp, args, timeout):
         return dict(found=False, error='finder timeout (possible hang in real code)', hang=True)
     lines = [l for l in p.stdout.strip().split('\n') if l.startswith('{')]
     if not lines:
+        if p.returncode < 0:
+            # killed by a signal (abort, stack overflow, ..) while running the real code on a sampled input
+            return dict(found=False, error='finder process died: signal %d %s' % (-p.returncode, p.stderr[-200:]), hang=True, died=-p.returncode)
         return dict(found=False, error='finder produced no result: rc=%s %s' % (p.returncode, p.stderr[-300:]))
     return json.loads(lines[-1])
 
@@ -107,7 +110,8 @@ def find(pid, seed, budget, repo, failure):
         last = _last_started_input(binp, pid, seed, budget)
         if last is not None:
             print('NOTE: a sampled input did not terminate on this tree within the budget + 60 s; it is reported as the counterexample')
-            return dict(found=True, evaluations=None, input=last, detail=dict(what='the real code did not return for this input (no result within %d s)' % (budget + 60), hang=True))
+            what = ('the real code killed the process (signal %d) on this input' % r['died']) if r.get('died') else ('the real code did not return for this input (no result within %d s)' % (budget + 60))
+            return dict(found=True, evaluations=None, input=last, detail=dict(what=what, hang=True))
         print('NOTE: the sampled finder did not return within its budget + 60 s and the input could not be isolated')
     return r
 
